@@ -85,7 +85,8 @@ void ProtoRun::filter_record(Record &r, std::vector<Bytes> &out) {
     if (captured_reset) { have_held[0] = have_held[1] = false; captured_reset = false; }
     Unit u; u.b = r.raw;
     if (pending_gap[dir]) { u.tampered = true; u.kind = "after_drop"; u.is_mod = gap_is_mod[dir]; pending_gap[dir] = false; }
-    if (a.on) {
+    if (a.on && a.skip > 0) { a.skip--; }
+    else if (a.on) {
         a.on = false;
         obs.fault_fired[dir] = true;
         size_t hdr = r.hdr, blen = r.body_len();
@@ -134,6 +135,18 @@ void ProtoRun::filter_record(Record &r, std::vector<Bytes> &out) {
                 switch (((uint64_t) a.b >> 8) % 4) { case 0: v = cur + 1; break; case 1: v = cur ? cur - 1 : 0xffff; break; case 2: v = cur + (uint32_t) blen; break; default: v = VALS[(uint64_t) a.b % (sizeof VALS / sizeof VALS[0])]; break; }
                 for (size_t i = 0; i < w; i++) { u.b[hdr + fo + i] = (unsigned char) (v >> (8 * (w - 1 - i))); }
                 u.tampered = true; u.kind = "hsfield_" + std::to_string(fo); u.is_mod = is_mod;
+            }
+        } else if (a.kind == "fragmove") {
+            // DTLS: one fragment claims a longer message AND a fragment offset at/after the originally announced end (two fields changed together)
+            if (pc.dtls() && r.type == 22 && blen >= 12 && r.epoch == 0) {
+                static const uint32_t DELTA[] = { 1, 64, 300, 575, 4000, 60000 };
+                uint32_t hslen = (uint32_t) u.b[hdr + 1] << 16 | (uint32_t) u.b[hdr + 2] << 8 | u.b[hdr + 3];
+                uint32_t flen = (uint32_t) u.b[hdr + 9] << 16 | (uint32_t) u.b[hdr + 10] << 8 | u.b[hdr + 11];
+                uint32_t nl = hslen + DELTA[(uint64_t) a.a % 6] + flen;
+                uint32_t no = ((uint64_t) a.b & 1) ? hslen : hslen + DELTA[(uint64_t) a.a % 6];
+                u.b[hdr + 1] = (unsigned char) (nl >> 16); u.b[hdr + 2] = (unsigned char) (nl >> 8); u.b[hdr + 3] = (unsigned char) nl;
+                u.b[hdr + 6] = (unsigned char) (no >> 16); u.b[hdr + 7] = (unsigned char) (no >> 8); u.b[hdr + 8] = (unsigned char) no;
+                u.tampered = true; u.kind = "fragmove"; u.is_mod = is_mod;
             }
         } else if (a.kind == "grow" || a.kind == "shrink") {
             // structure-aware resize of a plaintext handshake message: add (or remove) N bytes at the end and keep every enclosing length field
@@ -436,7 +449,7 @@ void ProtoRun::do_op(const Op &op) {
         after_event();
         w.collect(DIR_C2S); w.collect(DIR_S2C);
     } else if (op.k == "arm") {
-        armed[dir].on = true; armed[dir].kind = op.s; armed[dir].a = op.b; armed[dir].b = op.c;
+        armed[dir].on = true; armed[dir].kind = op.s; armed[dir].a = op.b; armed[dir].b = op.c; armed[dir].skip = op.d > 0 ? op.d : 0;
     } else if (op.k == "inject") {
         bool is_mod = false; std::string kind;
         Bytes b = craft(dir, op, is_mod, kind);
